@@ -30,7 +30,9 @@ def run(tier):
     batches = []
     for ti in range(ntables):
         n = rng.choice([1, 2, 3, 6, 12, 40]) if ti else 3
-        keys = concrete.key_family(rng.choice(["be4", "ascii", "marker"]), n, rng)
+        if ti % 4 == 3:          # long compressible keys + compressed index: several records, so that an index iterator has something to skip
+            n = [40, 20][(ti // 4) % 2]
+        keys = concrete.key_family(rng.choice(["be4", "ascii", "marker"]) if ti % 4 != 3 else ["longcomp", "medcomp"][(ti // 4) % 2], n, rng)
         toks = ["v%d" % i for i in range(n)]
         vals = concrete.value_family(rng.choice(["short", "sized", "marker", "zeros"]), toks, rng)
         writes = []
@@ -44,8 +46,17 @@ def run(tier):
             writes.append({"k": k, "v": v, "fault": ""})
         size_guess = sum(len(vals[t]) for t in toks) + 12 * n
         step = 1 if (thorough and size_guess < 4000) or size_guess < 250 else max(1, size_guess // (1200 if thorough else 120))
-        case = {"writes": writes, "dcomp": ti % 4, "step": step, "kinds": ["byte", "trunc", "swap"]}
-        batches.append(("t%d-n%d-c%d" % (ti, n, ti % 4), keys, vals, [case]))
+        dcomp = (ti + ti // 4) % 4       # not coupled to the key family / index compression choice (both go by ti % 4)
+        case = {"writes": writes, "dcomp": dcomp, "icomp": (1 + (ti // 4) % 3) if ti % 4 == 3 else [-1, 0, 1, 2, 3][(ti // 2) % 5], "step": step, "kinds": ["byte", "trunc", "swap"]}
+        batches.append(("t%d-n%d-c%d" % (ti, n, dcomp), keys, vals, [case]))
+
+    # big tables (a record count above 4096 that is not a multiple of 4, 8 or 16): damage confined to the last records
+    for bi, n in enumerate([4099, 4111] if thorough else [4099]):
+        keys = concrete.key_family("be4", n, rng)
+        toks = ["v%d" % i for i in range(n)]
+        vals = concrete.value_family("short", toks, rng)
+        case = {"writes": [{"k": k, "v": toks[k], "fault": ""} for k in range(n)], "dcomp": bi % 2, "icomp": -1, "step": 2, "kinds": ["byte", "trunc"], "tail": 90}
+        batches.append(("big%d-n%d" % (bi, n), keys, vals, [case]))
 
     def do(b):
         name, keys, vals, cases = b
